@@ -38,6 +38,8 @@ shelf transport.
 S7 (K6) the revision id stored in the metadata is the revision of the very tree self.shelf_transform was built on
 (ShelfCreator.__init__: <tree>.preview_transform(); write_shelf: <tree>.get_revision_id()), and the reader rebuilds the
 transform on revision_tree(metadata[b"revision_id"]). Added while testing against seeded changes.
+S8 where ShelfCreator creates, with create_from_tree, the content of an entry that it also versions afresh, it sets the
+executability on the same transform id (create_from_tree copies kind and content only).
 Does not decide: that the shelved transform, applied back, restores the same tree (tree values).
 """
 ASSUMPTIONS = ["the shelf directory is accessed under the working tree's write lock (callers), so list_dir + open is not raced"]
@@ -168,6 +170,24 @@ def run(ctx):
     key_of = {norm(n.targets[0]): n.value.slice.value for n in walk_own(ft) if isinstance(n, ast.Assign) and isinstance(n.value, ast.Subscript) and isinstance(n.value.slice, ast.Constant)}
     ok_r = len(rd_tree) == 1 and rd_tree[0] in rev_of and all(any(k in v and key_of[k] == b"revision_id" for k in key_of) for t, v in rev_of.items() if t == rd_tree[0])
     ctx.check("S7-base-is-transform-tree", f"{SH}:Unshelver.from_tree_and_shelf", ok_r, "the reader deserialises the transform on revision_tree(metadata[b'revision_id'])", construct=f"{rd_tree} / {rev_of}", message="from_tree_and_shelf no longer rebuilds the shelf transform on the tree of the recorded base revision")
+    # ---- S8: a file (re)created as a newly versioned entry carries its executable bit ------------------------------
+    # create_from_tree() copies kind and content only.  Where ShelfCreator creates the content of an entry it also
+    # versions afresh (shelved additions go to the shelf transform, shelved deletions come back into the work tree) the
+    # executable bit has to be set on the same transform id, or the file comes back non-executable.
+    n_s8 = 0
+    for q, f in repo.module(SH).functions().items():
+        if not q.startswith("ShelfCreator."):
+            continue
+        creates = [c for c in calls_in(f) if (call_attr(c) or norm(c.func)) == "create_from_tree" and len(c.args) >= 2]
+        versions = {(call_recv(c), norm(c.args[0])) for c in calls_in(f) if call_attr(c) == "version_file" and c.args}
+        for c in creates:
+            key = (norm(c.args[0]), norm(c.args[1]))
+            if key not in versions:
+                continue
+            n_s8 += 1
+            execs = [x for x in calls_in(f) if call_attr(x) == "set_executability" and call_recv(x) == key[0] and len(x.args) >= 2 and norm(x.args[1]) == key[1] and x.lineno >= c.lineno]
+            ctx.check("S8-created-entry-keeps-exec-bit", f"{SH}:{q}", bool(execs), f"{q}: the entry created from a tree on {key[0]} also gets its executability set", construct=f"L{c.lineno}:{norm(c)[:70]}", message=f"{q} creates the content of a freshly versioned entry with create_from_tree({key[0]}, {key[1]}, …) and never sets its executability: an added executable file that is shelved and unshelved (or a deleted one whose deletion is shelved) comes back without its executable bit — the tree is not what it was before shelving")
+    ctx.require(n_s8 >= 1, f"{SH}:ShelfCreator: no create_from_tree of a freshly versioned entry found (hand-confirmed: _shelve_creation)")
     # ---- S5 ---------------------------------------------------------------------------------------
     fnu, gu, whereu = fn_cfg(ctx, UI, "Unshelver.run")
     dm = need(whereu, calling(gu, attr="do_merge"), "merger.do_merge()")
@@ -211,6 +231,7 @@ def run(ctx):
 
 
 MUTANTS = [
+    Mutant("created entries lose the executable bit", SH, "                    if kind == \"file\" and tree.is_executable(path):\n                        to_transform.set_executability(True, s_trans_id)\n", "", expect="S8-created-entry-keeps-exec-bit"),
     Mutant("shelf base recorded from the working tree's last revision", SH, "        revision_id = self.target_tree.get_revision_id()\n", "        revision_id = self.work_tree.last_revision()\n", expect="S7-base-is-transform-tree"),
     Mutant("neutral: base revision id passed inline", SH, "        revision_id = self.target_tree.get_revision_id()\n        return self._write_shelf(shelf_file, self.shelf_transform, revision_id, message)\n", "        return self._write_shelf(\n            shelf_file, self.shelf_transform, self.target_tree.get_revision_id(), message\n        )\n", neutral=True),
     Mutant("tree reverted first, shelf written in a with block", SH, "        next_shelf, shelf_file = self.new_shelf()\n        try:\n            creator.write_shelf(shelf_file, message)\n        finally:\n            shelf_file.close()\n        creator.transform()\n", "        creator.transform()\n        next_shelf, shelf_file = self.new_shelf()\n        with shelf_file:\n            creator.write_shelf(shelf_file, message)\n", expect="S3-write-before-revert"),
